@@ -47,11 +47,11 @@ DURS = [
     D((1, 8, 3)),
     D((1, 4, None), (1, 16, None)),
     D((7, 1, None)),
+    D((5, 1, 3)),
 ]
 DURS_X = DURS + [
     D((1, 4, 3), (1, 8, None)),
     D((1, 4, None), (1, 16, None), (1, 32, None)),
-    D((5, 1, 3)),
     D((1, 1024, None)),
     D((1023, 1024, None)),
     D((0, 1, None), (3, 16, None)),
